@@ -120,7 +120,7 @@ def run(F, R, tier):
     # the in-place missing-module lookup must follow redirects (the error
     # iterator ignores Err(Missing) entries when follow_dynamic is on, relying on it)
     S = Slicer(F, sources=["ModuleGraph::resolve"])
-    lk = [n for n in cr["_nodes"] if n.get("k") == "MethodCall" and n["name"] == "get" and peel(n["recv"]).get("field") == "module_slots"]
+    lk = [n for n in cr["_nodes"] if n.get("k") == "MethodCall" and n["name"] == "get" and field_of(n["recv"]) == "module_slots"]
     R.floor("C02-c module_slots lookups in check_resolution", len(lk), 1)
     for n in lk:
         leaves = S.origins(n["args"][0])
@@ -142,7 +142,7 @@ def run(F, R, tier):
                     if c_.get("res") == "local" and any("ModuleErrorKind::Missing" in pat_text(z["arms"][0]["pat"]) for y in through_locals(c_) for z in walk(y) if z.get("k") == "Match" and "matches" in (z.get("mac") or [])):
                         return (True, False)
                     return None
-                pushes = lambda n: n.get("k") == "MethodCall" and n["name"] == "push" and peel(n["recv"]).get("field") == "next_errors"
+                pushes = lambda n: n.get("k") == "MethodCall" and n["name"] == "push" and field_of(n["recv"]) == "next_errors"
                 fl = Flow(F, pushes, cond_hook=hook)
                 fl.run(arm["body"], False)
                 bad = [1 for k_, n_, st in fl.exits if st is False]
@@ -186,7 +186,7 @@ def run(F, R, tier):
         ok = False
         for a in anc:
             if is_within(c, a["cond"]):
-                ok = any(n.get("k") == "MethodCall" and n["name"] == "push" and peel(n["recv"]).get("field") == "next_errors" for n in walk(a["then"]))
+                ok = any(n.get("k") == "MethodCall" and n["name"] == "push" and field_of(n["recv"]) == "next_errors" for n in walk(a["then"]))
                 break
         R.ob("C02-e", "a reported resolution error is queued for the caller", ok, "result of check_resolution is dropped", where(c))
 
